@@ -86,6 +86,8 @@ def worker(case):
     s = core.sdn()
     probs = []
     target, opts = case[0]
+    ext = target              # the extension as written (.edif, .vh, .vm, .blif, upper case ... are documented aliases)
+    target = {".edif": ".edf", ".vh": ".v", ".vm": ".v", ".blif": ".eblif"}.get(ext.lower(), ext.lower())
     n, tag = source(case)
     opts = dict(opts)
     nameless = bool(opts.pop("_nameless", False))
@@ -93,7 +95,7 @@ def worker(case):
     if nameless and target != ".edf":
         del n.name
         tag += ":nameless"
-    tag = "%s->%s%s" % (tag, target, ":method" if method else "")
+    tag = "%s->%s%s" % (tag, ext, ":method" if method else "")
 
     def do_compose(path):
         if method:
@@ -106,7 +108,7 @@ def worker(case):
     edif = target == ".edf"
     before = masked(before_raw, edif, before_raw)
     key = core.digest((before_raw, target, repr(opts), method, nameless))
-    path = os.path.join(core.scratch_dir(), "c16_%d%s" % (os.getpid(), target))
+    path = os.path.join(core.scratch_dir(), "c16_%d%s" % (os.getpid(), ext))
     try:
         with core.quiet():
             do_compose(path)
@@ -200,6 +202,9 @@ def cases(tier):
                     out.append(((t, opts),) + src + ("desc",))   # the dependency sort iterates sets
         if src[0] == "verilog-text":
             out.append(((".v", {"definition_list": ["top"], "write_blackbox": True}),) + src + ("asc",))
+        if src == ("api-base", "E1") or src[0] == "verilog-text" and src[1] == [0, 1, 2]:
+            for alias in (".edif", ".EDF", ".vh", ".vm", ".V", ".blif", ".EBLIF"):
+                out.append(((alias, {}),) + src + ("asc",))
         if src[0] in ("api-base", "verilog-text", "eblif-text"):
             # the Netlist.compose shortcut, also on a netlist that has no name
             for t in TARGETS:
